@@ -139,6 +139,11 @@ m('enc-match-reps-order', 'C01', 'CODEC-MIRROR', 'src/enc/encoder.rs',
   '        self.coder.reps[2] = self.coder.reps[1];\n        self.coder.reps[3] = self.coder.reps[2];\n        self.coder.reps[1] = self.coder.reps[0];\n        self.coder.reps[0] = dist as i32;', 'match:slot')
 m('enc-literal-context', 'C01', 'CODEC-MIRROR', 'src/enc/encoder.rs', '        if coder.state.is_literal() {\n            let mut subencoder_index;', '        if !coder.state.is_literal() {\n            let mut subencoder_index;', 'literal:')
 
+m('optalloc-mt-unclamped', 'C19', 'OPT-ALLOC', 'src/enc/lzma2_writer_mt.rs',
+  'Vec::with_capacity(chunk_size.min(1024 * 1024))', 'Vec::with_capacity(chunk_size)', 'LZMA2WriterMT::new:with_capacity')
+m('optalloc-lzip-unclamped', 'C19', 'OPT-ALLOC', 'src/lzip/writer_mt.rs',
+  'Vec::with_capacity((member_size as usize).min(1024 * 1024))', 'Vec::with_capacity(member_size as usize)', 'LZIPWriterMT::new:with_capacity')
+
 M = [x for x in M if x['old'] is not None]
 
 
